@@ -364,8 +364,10 @@ def check_chunk_file_flushed(repo: Repo, rep: Report) -> None:
         cfg = CFG(fn, body=body_nodoc(fn), local_exc_only=True)
         trig = [n for n in cfg.nodes if n.ast is not None and n.kind in ("stmt", "with_enter") and any(norm(c.func) == "evt.trigger" and len(c.args) > 1 and norm(c.args[1]).endswith("EVT_C_STORE") for c in calls_at(n))]
         fl = [n for n in cfg.nodes if n.kind == "stmt" and any(isinstance(c.func, ast.Attribute) and c.func.attr == "flush" and "_dataset_file" in norm(c.func.value) for c in calls_at(n))]
+        # `if req._dataset_file: req._dataset_file.flush()` - flushing when there is a file - counts through its test
+        guards = [n for n in cfg.nodes if n.kind == "test" and "_dataset_file" in norm(n.ast.test) and any(f_.ast in list(ast.walk(ast.Module(body=n.ast.body, type_ignores=[]))) for f_ in fl)]
         for t in trig:
-            if not any(cfg.dominates(f_, t) for f_ in fl):
+            if not any(cfg.dominates(f_, t) for f_ in fl + guards):
                 bad.append((mname, q, t))
     for mname, q, t in bad:
         rep.fail("chunk-flushed", f"{mname}.{q}", t.ast, "decode_msg no longer flushes the chunk file after each fragment and this EVT_C_STORE trigger site does not flush it either: its handler reads a truncated (or empty) file through Event.dataset / dataset_path / encoded_dataset while the status says Success", mod=repo.mod(mname), node=t.ast)
